@@ -99,6 +99,12 @@ def gen_control(repo):
     need(r'for\s*\(\s*int\s+i\s*=\s*0;\s*i\s*<\s*mask\s*/\s*\d+;\s*\+\+i\s*\)\s*\{\s*maskv6\.s6_addr32\[i\]\s*=\s*-1;', m6, 'ip6_matchnet: full word loop')
     need(r'if\s*\(\s*\(\s*mask\s*%\s*\d+\s*\)\s*!=\s*0\s*\)\s*maskv6\.s6_addr32\[mask\s*/\s*\d+\]\s*=', m6, 'ip6_matchnet: partial word store')
 
+    md = func_body(src, 'matchdomain', rel)
+    c['MD_DOT'] = ch(one(r'if\s*\(\s*\*expr\s*==\s*' + CH + r'\s*\)', md, 'matchdomain dot test'))
+    need(r'if\s*\(\s*el\s*>\s*dl\s*\)\s*return\s+0;', md, 'matchdomain: length test')
+    need(r'return\s+!strcasecmp\(\s*domain\s*\+\s*\(\s*dl\s*-\s*el\s*\)\s*,\s*expr\s*\)\s*;', md, 'matchdomain: suffix comparison')
+    need(r'else\s+if\s*\(\s*el\s*==\s*dl\s*\)\s*\{\s*return\s+!strcasecmp\(\s*domain\s*,\s*expr\s*\)\s*;', md, 'matchdomain: exact comparison')
+
     # ------------------------------------------------------------ qsmtpd/antispam.c
     rel = 'qsmtpd/antispam.c'
     src = strip_comments(read(repo, rel))
@@ -118,7 +124,7 @@ def gen_control(repo):
     need(r'check_ipbl_file\(\s*sizeof\(struct in_addr\)\s*,\s*len\s*,\s*buf\s*,\s*\(ip_matchnet\)ip4_matchnet\s*\)', src, 'check_ip4')
     need(r'check_ipbl_file\(\s*sizeof\(struct in6_addr\)\s*,\s*len\s*,\s*buf\s*,\s*\(ip_matchnet\)ip6_matchnet\s*\)', src, 'check_ip6')
 
-    chars = {'LOADINT_DIGIT_LO', 'LOADINT_DIGIT_HI', 'FD_LF', 'FD_COMMENT', 'FD_BLANK_A', 'FD_BLANK_B', 'FD_DOT', 'LL_COMMENT', 'LL_ESC', 'LL_LF', 'LL_BLANK_A', 'LL_BLANK_B'}
+    chars = {'MD_DOT', 'LOADINT_DIGIT_LO', 'LOADINT_DIGIT_HI', 'FD_LF', 'FD_COMMENT', 'FD_BLANK_A', 'FD_BLANK_B', 'FD_DOT', 'LL_COMMENT', 'LL_ESC', 'LL_LF', 'LL_BLANK_A', 'LL_BLANK_B'}
     for k, v in c.items():
         out += 'Definition %s : %s := %d%s.\n' % (k, 'N' if k in chars else 'nat', v, '%N' if k in chars else '')
     return out
